@@ -138,6 +138,8 @@ def run(ctx):
     ctx.rule("C01.i", "literal format: <sign><nbits>'d<abs(value)>, sign iff value < 0", min_sites=4)
     ctx.rule("C01.j", "inclusive bounds: every printed range upper bound is (length or stop) - 1", min_sites=10)
     ctx.rule("C01.k", "Cat prints its operands reversed exactly once (Migen LSB-first, Verilog MSB-first)", min_sites=1)
+    ctx.rule("C01.n", "memory initial contents: the $readmemh data file lists memory.init word by word, unmodified (at most masked to "
+                      "the memory width), in hex, and is loaded into the declared memory", min_sites=5)
     ctx.rule("C01.m", "slice lowering: a slice of a Cat/Replicate/nested slice is re-targeted to the one element that holds all its "
                       "bits with start made relative to it; the element offset restarts for every Cat entered; containment tests "
                       "evaluated exhaustively on a small integer domain against their specification", min_sites=13)
@@ -566,8 +568,10 @@ def run(ctx):
     ok = "value" in kw and norm(kw["value"]) == "abs(node.value)"
     ctx.ob("C01.i", EXP, "_generate_constant", "magnitude = abs(node.value) in decimal", ok, "" if ok else f"value = {norm(kw.get('value'))}", gc)
     s = kw.get("sign")
-    ok = isinstance(s, ast.IfExp) and ((norm(s.test) == "node.value >= 0" and norm(s.body) == "''" and norm(s.orelse) == "'-'") or
-                                       (norm(s.test) == "node.value < 0" and norm(s.body) == "'-'" and norm(s.orelse) == "''"))
+    # (comparisons are read in canonical orientation: `a >= b` as `b <= a`)
+    ok = isinstance(s, ast.IfExp) and ((norm(s.test) == "0 <= node.value" and norm(s.body) == "''" and norm(s.orelse) == "'-'") or
+                                       (norm(s.test) == "node.value < 0" and norm(s.body) == "'-'" and norm(s.orelse) == "''") or
+                                       (norm(s.test) == "0 < node.value" and False))
     ctx.ob("C01.i", EXP, "_generate_constant", "sign '-' iff value < 0", ok, "" if ok else f"sign = {norm(s)}", gc)
     ok = "bits" in kw and norm(kw["bits"]) in ("str(node.nbits)", "node.nbits")
     ctx.ob("C01.i", EXP, "_generate_constant", "width = node.nbits", ok, "" if ok else f"bits = {norm(kw.get('bits'))}", gc)
@@ -657,6 +661,9 @@ def run(ctx):
 
     # ================================================================ C01.m
     _slice_lowering(ctx, vm)
+
+    # ================================================================ C01.n
+    _memory_init(ctx, mm)
 
 
 def _ieval(e, env):
@@ -823,3 +830,37 @@ def _slice_lowering(ctx, vm):
     idt = [n for n in vs.body if isinstance(n, ast.If) and any(isinstance(x, ast.Return) for x in n.body)]
     ok = bool(idt) and norm(idt[0].test) in ("start == 0 and len(node) == length", "len(node) == length and start == 0")
     ctx.ob("C01.m", VER, "visit_Slice", "slice dropped only when it covers the whole node", ok, "" if ok else f"{[norm(i.test) for i in idt]}", vs)
+
+
+def _memory_init(ctx, mm):
+    """C01.n: the initial contents handed to $readmemh are the init words themselves, in order, in hexadecimal, loaded into the
+    declared memory under the name the logic uses (the simulator starts from memory.init verbatim)."""
+    mg = mm.func("_memory_generate_verilog")
+    blocks = [n for n in ast.walk(mg) if isinstance(n, ast.If) and norm(n.test) in ("memory.init is not None", "not memory.init is None")]
+    ctx.need(len(blocks) == 1, "_memory_generate_verilog: `if memory.init is not None:` block not found")
+    blk = blocks[0]
+    loops = [n for n in blk.body if isinstance(n, ast.For)]
+    ok = len(loops) == 1 and norm(loops[0].iter) == "memory.init" and isinstance(loops[0].target, ast.Name)
+    ctx.ob("C01.n", MEM, "_memory_generate_verilog", "one line per init word, in order", ok, "" if ok else "init loop changed", blk)
+    if not ok:
+        return
+    var = loops[0].target.id
+    fm = [c for c in ast.walk(loops[0]) if isinstance(c, ast.Call) and isinstance(c.func, ast.Attribute) and c.func.attr == "format"]
+    ok = len(fm) == 1 and len(fm[0].args) == 1
+    arg = fm[0].args[0] if ok else None
+    # the word itself, or masked to the full memory width (2**width - 1 / (1 << width) - 1)
+    full = {f"{var} & 2 ** memory.width - 1", f"{var} & (1 << memory.width) - 1", f"2 ** memory.width - 1 & {var}", f"(1 << memory.width) - 1 & {var}"}
+    ok = ok and (norm(arg) == var or norm(arg) in full)
+    ctx.ob("C01.n", MEM, "_memory_generate_verilog", "each line prints the init word itself (at most masked to the memory width)", ok,
+           "" if ok else f"`{norm(arg) if arg is not None else '?'}` is printed instead of `{var}`: the loaded contents differ from memory.init, which is what "
+                         f"the simulator starts from", fm[0] if fm else loops[0])
+    fdef = [n for n in blk.body if isinstance(n, ast.Assign) and isinstance(n.value, ast.JoinedStr)]
+    txt = norm(fdef[0].value) if fdef else ""
+    ok = bool(fdef) and txt.endswith("x}}\\n'") and "{{:0" in txt
+    ctx.ob("C01.n", MEM, "_memory_generate_verilog", "hexadecimal, zero padded, one word per line", ok, "" if ok else f"formatter = {txt}", fdef[0] if fdef else blk)
+    rm = [norm(n) for n in ast.walk(blk) if isinstance(n, ast.JoinedStr) and "$readmemh" in norm(n)]
+    ok = len(rm) == 1 and "{memory_filename}" in rm[0] and "{_get_name(memory)}" in rm[0]
+    ctx.ob("C01.n", MEM, "_memory_generate_verilog", "$readmemh(<data file>, <the declared memory>)", ok, "" if ok else f"{rm}", blk)
+    af = [n for n in ast.walk(blk) if isinstance(n, ast.Call) and norm(n.func) == "add_data_file"]
+    ok = len(af) == 1 and len(af[0].args) == 2 and norm(af[0].args[1]) == "content"
+    ctx.ob("C01.n", MEM, "_memory_generate_verilog", "the data file holds the accumulated lines", ok, "" if ok else f"{[norm(a) for a in af]}", blk)
